@@ -1105,6 +1105,9 @@ func (ar *axisRun) run(entry *ssa.Function, args []pval, cell *axisCell, init bo
 		if pos == token.NoPos {
 			pos = fn.Pos()
 		}
+		if cell.refuse {
+			return // the refusal ONNX asks for
+		}
 		ar.add("refused", pos, fn, cell, "")
 	}
 	p.onPanic = func(fn *ssa.Function, in ssa.Instruction, what string) {
@@ -1373,10 +1376,18 @@ func ruleAxisAccept(c *Ctx, prop string) {
 		n++
 		args := []pval{{k: pRecv}, {k: pInputs}}
 		cells := 0
+		listRank := int64(3)
+		if c.tier == "thorough" {
+			listRank = 4
+		}
 		switch {
 		case src.kind == "axis":
 			flatten := src.op == "Flatten"
-			for r := int64(1); r <= 4; r++ {
+			maxR := int64(4)
+			if c.tier == "thorough" {
+				maxR = 6
+			}
+			for r := int64(1); r <= maxR; r++ {
 				hi := r - 1
 				if flatten {
 					hi = r
@@ -1449,7 +1460,7 @@ func ruleAxisAccept(c *Ctx, prop string) {
 				}
 			}
 		case src.op == "Squeeze":
-			for r := int64(1); r <= 3; r++ {
+			for r := int64(1); r <= listRank; r++ {
 				for _, sub := range subsetsOf(r) {
 					ext := make([]int64, r)
 					for i := range ext {
@@ -1483,7 +1494,7 @@ func ruleAxisAccept(c *Ctx, prop string) {
 				}
 			}
 		case src.op == "Unsqueeze":
-			for r := int64(0); r <= 2; r++ {
+			for r := int64(0); r <= listRank-1; r++ {
 				for k := int64(1); k <= 2; k++ {
 					or := r + k
 					for _, sub := range subsetsOf(or) {
@@ -1517,7 +1528,7 @@ func ruleAxisAccept(c *Ctx, prop string) {
 				}
 			}
 		case src.op == "ReduceMax" || src.op == "ReduceMin":
-			for r := int64(1); r <= 3; r++ {
+			for r := int64(1); r <= listRank; r++ {
 				ext := make([]int64, r)
 				for i := range ext {
 					ext[i] = int64(i) + 2
@@ -1547,7 +1558,7 @@ func ruleAxisAccept(c *Ctx, prop string) {
 				}
 			}
 		case src.op == "Slice":
-			for r := int64(1); r <= 3; r++ {
+			for r := int64(1); r <= listRank; r++ {
 				ext := make([]int64, r)
 				for i := range ext {
 					ext[i] = int64(i) + 2
